@@ -220,6 +220,12 @@ func (x *bctx) buildV2(kind string) bool {
 }
 
 // newV2Contract draws a consensus-valid new contract whose renter+host value is about budget.
+// V2ContractSpec fixes the file and heights of a scripted v2 contract.
+type V2ContractSpec struct {
+	Data                          []byte
+	ProofHeight, ExpirationHeight uint64
+}
+
 func (x *bctx) newV2Contract(budget types.Currency) types.V2FileContract {
 	c := x.c
 	r, h := c.W.randKey(x.rng), c.W.randKey(x.rng)
